@@ -63,18 +63,22 @@ class Linked:
     pass
 
 
-def build_and_link(tag, scripts, info, rng, extra_sections=True):
-    """scripts: [("main", text)] or [("main", text), (seg, text)...] for partial mode (then `partial_objs` maps
+MAIN = "\0main"     # the label of the main script in `scripts` (no segment can be called so)
+
+
+def build_and_link(tag, scripts, info, rng, extra_sections=True, no_check_sections=False):
+    """scripts: [(MAIN, text)] or [(MAIN, text), (seg, text)...] for partial mode (then `partial_objs` maps
     segment name -> object path named by the main script). Returns a Linked or a string reason when not linkable."""
-    main = dict(scripts)["main"]
-    partial_scripts = [(n, s) for n, s in scripts if n != "main"]
+    main = dict(scripts)[MAIN]
+    partial_scripts = [(n, s) for n, s in scripts if n != MAIN]
     lab = ldlab.Lab(tag)
+    lab.no_check_sections = no_check_sections     # (the two-step comparison: the two layouts differ in size, an overlap in one only is no finding)
     L = Linked()
     L.lab = lab
     try:
         seg_by_name = {s["name"]: s for s in info["segments"]}
         # which script names the source objects?
-        sources = partial_scripts if partial_scripts else [("main", main)]
+        sources = partial_scripts if partial_scripts else [(MAIN, main)]
         objects = {}     # (path, member) -> list of (sec, size, align, nobits)
         order = []
         L.stmts = {}
@@ -144,6 +148,7 @@ def build_and_link(tag, scripts, info, rng, extra_sections=True):
                     args += [p] if kind == "obj" else ["--whole-archive", p, "--no-whole-archive"]
             return args
         L.partial_logs = {}
+        L.partial_objs = {}
         if partial_scripts:
             main_inputs = [s["path"] for s in parse_script(main) if s["kind"] == "input"]
             for sname, script in partial_scripts:
@@ -153,6 +158,7 @@ def build_and_link(tag, scripts, info, rng, extra_sections=True):
                     lab.close()
                     return "main script does not reference the partial object of " + sname
                 target = cand[0]
+                L.partial_objs[sname] = target
                 import os
                 os.makedirs(os.path.dirname(lab.path(target)) or lab.dir, exist_ok=True)
                 ins = inputs_for(script)
@@ -177,6 +183,7 @@ def build_and_link(tag, scripts, info, rng, extra_sections=True):
         if L.ok:
             L.symbols = {k: v[0] for k, v in lab.symbols().items() if v[0] is not None}
             L.sections = lab.sections()
+            L.symsec = lab.symbol_secs()
             L.loads = lab.segments()
             L.map_lma = lab.map_lmas()
             rc, ro, _ = ldlab.sh(["readelf", "-SW", "out.elf"], lab.dir)
@@ -195,12 +202,9 @@ def build_and_link(tag, scripts, info, rng, extra_sections=True):
         raise
 
 
-def ldsem_fidelity(L, info, driver, script):
-    """runs the Lean linker semantics (Slinkyv.Ld, driver op `ld`) on the same script and object table and compares it
-    with what GNU ld produced: every symbol value, every output section's address and size, the address of every
-    placed input section. Returns (compared, mismatches) or None when the case is outside what the semantics covers."""
-    if any(degenerate(s) for s in emitted(info)) or not info.get("discard_wildcard", True):
-        return None
+def object_table(L):
+    """the input sections of the objects on the command line, in the order the linker walks them:
+    [path, member|None, section, size, alignment]"""
     objs = []
     seen = []
     for (p, m) in L.order:
@@ -219,6 +223,53 @@ def ldsem_fidelity(L, info, driver, script):
                 std.append(hit[0] if hit else (name, 0, 1))
             for sec, size, align in std + [g for g in given if g[0] not in (".text", ".data", ".bss")]:
                 objs.append([pp, m, sec, size, align])
+    return objs
+
+
+def twostep_model(L2, driver, ordinary_script, main_script, partial_scripts):
+    """the Lean two-step link (Slinkyv.Ld2, driver op `twostep`) on the same scripts and object table as the real
+    two-step link L2. Returns None, or a dict: `two` / `two_exact` = [(marker, partial object)] in the order of the
+    two-step link with the main script as written / with its partial-object statements taken by exact name,
+    `one` = [marker] in the order of the one-step link; only input sections that have a marker in the image"""
+    parts = [[L2.partial_objs[n], t] for n, t in partial_scripts if n in L2.partial_objs]
+    ans = driver.ask({"op": "twostep", "objects": object_table(L2), "partials": parts, "main": main_script, "ordinary": ordinary_script})
+    if not ans or "two" not in ans or not ans.get("two_plain"):
+        return None
+    out = {}
+    for k in ("two", "two_exact", "one"):
+        seq = []
+        for p, m, sec, obj in ans[k]:
+            mk = ldlab.marker(p if m is None else p + ":" + m, sec)
+            if mk in L2.symbols:
+                seq.append((mk, obj))
+        out[k] = seq
+    out["one"] = [mk for mk, _ in out["one"]]
+    return out
+
+
+def grabbing_statements(main_script, partial_objs):
+    """pairs of statements of the main script for one partial object where the pattern of the earlier one (`name*`)
+    also matches the section name of the later one: [(object, earlier, later)]"""
+    out = []
+    by = {}
+    for st in parse_script(main_script):
+        if st["kind"] == "input" and st["path"] in partial_objs:
+            by.setdefault(st["path"], []).append(st)
+    for obj, sts in by.items():
+        for i, a in enumerate(sts):
+            for b in sts[i + 1:]:
+                if a["wild"] and b["sec"] != a["sec"] and b["sec"].startswith(a["sec"]):
+                    out.append((obj, a["sec"], b["sec"]))
+    return out
+
+
+def ldsem_fidelity(L, info, driver, script):
+    """runs the Lean linker semantics (Slinkyv.Ld, driver op `ld`) on the same script and object table and compares it
+    with what GNU ld produced: every symbol value, every output section's address and size, the address of every
+    placed input section. Returns (compared, mismatches) or None when the case is outside what the semantics covers."""
+    if any(degenerate(s) for s in emitted(info)) or not info.get("discard_wildcard", True):
+        return None
+    objs = object_table(L)
     used = {s["path"] for s in parse_script(script) if s["kind"] == "input"}
     objs = [o for o in objs if o[0] in used]
     ans = driver.ask({"op": "ld", "script": script, "objects": objs, "defsyms": [[k, v] for k, v in FIXED_SYMS.items()]})
